@@ -127,6 +127,35 @@ def replay(recs):
                         if bad is not None:
                             out.append(dict(site=site, stratum=st + ("/degenerate-quadric" if r["deg"] else ""), case=case,
                                             expected={k: r["r"][k] for k in ("k", "pts", "gpts")}, observed=bad))
+                    # used-then-moved: the quadric has intersected, reported its dual and tangency; moved by an exact isometry
+                    # together with the line it must give the moved points, and is_tangent / dual must be those of the moved quadric
+                    if cname in ("Conic", "Quadric") and r["r"]["k"] in ("secant-rational", "tangent", "complex-gaussian") and sum(r["A"]) % 3 == 0:
+                        from ..moved import motions, mp, mq, warm
+                        for mname, mv, T, Ti in motions(dim):
+                            rr = dict(r["r"])
+                            rr["pts"] = [mp(T, q) for q in r["r"]["pts"]]
+                            rr["gpts"] = [[[int(z.real), int(z.imag)] for z in (np.asarray(T) @ gvec(q))] for q in r["r"]["gpts"]]
+                            site = f"{cname}.intersect/{dim}D/used-then-moved/{mname}"
+                            case = {"Q": r["Q"], "A": r["A"], "B": r["B"], "moved by": mname}
+                            try:
+                                with np.errstate(all="ignore"):
+                                    q0, l0 = warm(mk()), warm(g.Line(P(r["A"]), P(r["B"])))
+                                    q0.intersect(l0)
+                                    q0.is_tangent(g.Line(np.arange(1, dim + 2)) if dim == 2 else g.Plane(np.arange(1, dim + 2))) if not r["deg"] else None
+                                    q1, l1 = mv(q0), mv(l0)
+                                    got = pts_list(q1.intersect(l1))
+                                bad = check_intersection(got, rr, mq(Ti, r["Q"]), mp(T, r["A"]), mp(T, r["B"]), dim)
+                                if bad is None and not r["deg"]:
+                                    # dual of the moved quadric: the adjugate of the moved matrix (as a class)
+                                    Qm = np.array(mq(Ti, r["Q"]), dtype=float)
+                                    adj = np.linalg.inv(Qm) * np.linalg.det(Qm)
+                                    if not same_class(np.asarray(q1.dual.array).reshape(-1), adj.reshape(-1)):
+                                        bad = {"dual of the moved quadric": np.asarray(q1.dual.array).tolist()}
+                            except Exception as e:  # noqa: BLE001
+                                bad = f"raised {type(e).__name__}: {e}"
+                            if bad is not None:
+                                out.append(dict(site=site, stratum=st + ("/degenerate-quadric" if r["deg"] else ""), case=case,
+                                                expected={k: rr[k] for k in ("k", "pts", "gpts")}, observed=bad))
                     # tangent(at) in a lattice point of the quadric: contains the point, is tangent (the polar hyperplane)
                     Qm = np.array(r["Q"])
                     for X in (r["A"], r["B"]):
